@@ -31,7 +31,7 @@ func (Engine) Describe(prop string) core.Description {
 		Real: []string{
 			"jsonapi.Schema: AddType RemoveType AddAttr RemoveAttr AddRel RemoveRel AddTwoWayRel HasType GetType Check Rels",
 			"jsonapi.Type: AddAttr RemoveAttr AddRel RemoveRel", "jsonapi.Rel: Invert Normalize String",
-			"the package's 41 map-range loops under the seeded map-order scheduler (instrumented scratch copy of /repo's working tree)",
+			"the package's map-range loops (43 today) under the seeded map-order scheduler (instrumented scratch copy of /repo's working tree)",
 		},
 		Stub: []string{"reference schema model (ordered list of {name, attrs, rels})"},
 	}
